@@ -313,5 +313,6 @@ def alpha_canon(fn: ast.FunctionDef, strip: bool = True) -> str:
 
 
 def alpha_canon_src(source: str) -> str:
-    fn = ast.parse(source).body[0]
+    from .canon import _Canon
+    fn = _Canon().visit(ast.parse(source)).body[0]
     return alpha_canon(fn)
